@@ -6,7 +6,7 @@
 (*                                                                                                   *)
 (* P (verdict):  every created / modified / removed path is beneath the requested output directory.  *)
 (* D (DRIFT):    the set of touched paths equals what the model predicts for these names and options *)
-(*               (PredictTouched of PathContain.tla: code as written, or with the intended guard).   *)
+(*               (PredictTouched of PathContain.tla: the guarded code as written; else the unguarded deviation).   *)
 EXTENDS PathContain, Json, IOUtils, TLCExt
 
 Rec == ndJsonDeserialize(IOEnv.TRACE)
@@ -39,11 +39,11 @@ RawOutside(e)  == {p \in ToSet(e.created) \cup ToSet(e.modified) : ~Below(e.out,
 EscapeKind(e) == IF /\ e.out = OutAbs /\ ObsOutside(e) \subseteq PredOutside(e)
                     /\ Cardinality(RawOutside(e)) = Cardinality(ObsOutside(e))       \* `touched` is an injective renaming of created + modified
                     /\ \A p \in ToSet(e.removed) : Below(e.out, p)
-                 THEN "escape-as-modelled" ELSE "escape-unmodelled"
+                 THEN "escape-as-unguarded-deviation" ELSE "escape-unmodelled"
 
 Diag(e) == IF e.built # "ok" \/ e.exit < 0 THEN PrintT(<<"DRIFT", tl, "run not performed: " \o e.built>>)
-           ELSE IF Observed(e) = Predicted(e, FALSE) THEN TRUE
-           ELSE IF Observed(e) = Predicted(e, TRUE) THEN PrintT(<<"DRIFT", tl, "touched set matches the guarded model, not the code as written">>)
+           ELSE IF Observed(e) = Predicted(e, TRUE) THEN TRUE
+           ELSE IF Observed(e) = Predicted(e, FALSE) THEN PrintT(<<"DRIFT", tl, "touched set matches the unguarded deviation, not the code as written">>)
            ELSE PrintT(<<"DRIFT", tl, "touched set differs from both models">>)
 
 TInit == tl = 1 /\ InitWith(<<>>, [preserve |-> FALSE, explicit |-> TRUE, chain |-> FALSE, form |-> "rel", preout |-> FALSE])
